@@ -1238,7 +1238,17 @@ fn judge_store(cfg: &Cfg, m: &mut Model, k: u32, obs: &BTreeSet<String>, out: &m
         }
     }
     if out.len() == before && obs_k.len() <= limit && cfg.bytes(&obs_k) <= mm {
+        let n0 = out.len();
         judge_victims(cfg, m, k, &victims, &obs_k, out);
+        if cfg.max_memory.is_some() {
+            // C05 itself says "entries are evicted in policy order": a wrong victim under a memory bound breaks C05 as well
+            let twins: Vec<Breach> = out[n0..]
+                .iter()
+                .filter(|b| b.prop == "C07" || b.prop == "C08")
+                .map(|b| Breach { prop: "C05", what: format!("{} [max_memory is set: C05 requires eviction in policy order]", b.what) })
+                .collect();
+            out.extend(twins);
+        }
         m.store(k);
         for v in &victims {
             m.drop_key(*v);
